@@ -40,7 +40,7 @@ try:
     meta["demo_without_change_exit"] = rc0
     meta["demo_with_change_exit"] = rc1
     meta["demo_with_change_output"] = out1[-600:]
-    meta["checks"] = {}
+    meta["checks"] = dict(old_meta.get("checks", {})) if STORED else {}
     for pid in props:
         t0 = time.time()
         rc, log = run(f"./run_check {pid} --tier quick --no-evidence", env={"VERIF_REPO_PYTHON": f"{scratch}/python"}, cwd=ROOT)
